@@ -41,18 +41,22 @@ Proof. exact morph_refused. Qed.
 Print Assumptions C19_morph_refusal.
 
 (* annotation: >= 1 vertex, labels in {-1} + [0, n), n >= 1 colours with R,G,B in 0..255 whose
-   packed values are pairwise distinct AND non-zero, names without trailing NUL, a colour-table
-   dtype of at least 25 bits (or Python ints): labels (incl. -1), colour table (with the packed
-   fifth column) and names read back equal *)
+   packed values are pairwise distinct AND non-zero, names without trailing NUL, a colour table of
+   ANY integer dtype (uint8 ... int64; _pack_rgb computes in result_type(dtype, int32)): labels
+   (incl. -1), colour table (with the packed fifth column) and names read back equal *)
 Theorem C19_annot_roundtrip : forall dt labels ctab names,
-  wide_dt dt ->
   labels <> [] -> zlen labels * 2 < 2 ^ 31 -> 1 <= zlen ctab < 2 ^ 31 -> length names = length ctab ->
   ctab_ok ctab -> Forall name_ok names -> Forall (label_ok (zlen ctab)) labels ->
   NoDup (map epack ctab) -> ~ In 0 (map epack ctab) ->
   exists b, write_annot dt labels ctab names true = Ok b
     /\ read_annot false b = Ok (mkA labels (fill ctab) names).
-Proof. exact annot_roundtrip_wide. Qed.
+Proof. exact annot_roundtrip_any. Qed.
 Print Assumptions C19_annot_roundtrip.
+
+(* _pack_rgb is exact for every integer dtype of the table (the repaired S-C19b) *)
+Theorem C19_pack_rgb_any_dtype : forall dt row, rgb_ok row -> pack_rgb dt row = epack row.
+Proof. exact pack_rgb_exact. Qed.
+Print Assumptions C19_pack_rgb_any_dtype.
 
 (* without "non-zero": a label whose colour packs to 0 (black) reads back as -1 (S-C19a) *)
 Theorem C19_annot_black_refuted :
@@ -61,15 +65,6 @@ Theorem C19_annot_black_refuted :
     /\ NoDup (map epack ctab) /\ Forall (label_ok (zlen ctab)) labels /\ alabels a <> labels.
 Proof. exact annot_black_refuted. Qed.
 Print Assumptions C19_annot_black_refuted.
-
-(* without "wide dtype": a uint8 colour table with distinct non-zero colours loses labels (S-C19b) *)
-Theorem C19_annot_narrow_dtype_refuted :
-  exists labels ctab names b a,
-    write_annot (Some (8, false)) labels ctab names true = Ok b /\ read_annot false b = Ok a
-    /\ NoDup (map epack ctab) /\ ~ In 0 (map epack ctab) /\ Forall (label_ok (zlen ctab)) labels
-    /\ alabels a <> labels.
-Proof. exact annot_narrow_refuted. Qed.
-Print Assumptions C19_annot_narrow_dtype_refuted.
 
 (* MGH: header (version, dims, type, dof, goodRASFlag, delta, Mdc, Pxyz_c), data chunk and
    footer (tr, flip_angle, te, ti, fov) read back exactly; a 3-D shape, or a 4-D shape whose
@@ -91,14 +86,15 @@ Theorem C19_mgh_lowdim_refuted :
 Proof. exact shape_padded_refuted. Qed.
 Print Assumptions C19_mgh_lowdim_refuted.
 
-(* non-vacuity: concrete inputs meet the hypotheses of the annotation and volume-info theorems *)
+(* non-vacuity: concrete inputs (a uint8 colour table) meet the hypotheses of the annotation and
+   volume-info theorems *)
 Example C19_nonvacuous :
   let ctab := [[25; 5; 25; 0]; [220; 20; 10; 255]; [0; 0; 1; 7]] in
   let names := [[117; 110; 107]; []; [98; 32; 99]] in
   let labels := [2; -1; 0; 1; 1] in
-  wide_dt (Some (32, true)) /\ ctab_ok ctab /\ Forall name_ok names /\ Forall (label_ok (zlen ctab)) labels
+  ctab_ok ctab /\ Forall name_ok names /\ Forall (label_ok (zlen ctab)) labels
   /\ NoDup (map epack ctab) /\ ~ In 0 (map epack ctab)
-  /\ (exists b, write_annot (Some (32, true)) labels ctab names true = Ok b
+  /\ (exists b, write_annot (Some (8, false)) labels ctab names true = Ok b
                 /\ read_annot false b = Ok (mkA labels (fill ctab) names))
   /\ wf_vinfo (mkV [2; 0; 20] [49; 32; 118] [97; 46; 109]
                    [[[50; 53]; [49]]; [[48; 46; 53]]; [[45; 49]; [48]]; []; [[48]]; [[49; 101; 45; 48; 53]]]).
